@@ -53,6 +53,32 @@ Obs(pj) ==
    slot |-> [h \in DOMAIN pj.H |-> pj.H[h].st],
    sl   |-> [h \in DOMAIN pj.H |-> ObsView(pj.H[h])]]
 
+(* the recorded line has the shape the rest of this module indexes into: a  *)
+(* malformed observation becomes a verdict (OBS:Malformed), never an        *)
+(* evaluation error                                                         *)
+InR(q, lo, hi) == \A i \in DOMAIN q : q[i] >= lo /\ q[i] < hi
+WFKern(k) ==
+  LET ne == Len(k.edges)  nf == Len(k.faces)  nc == Len(k.cells) IN
+  /\ k.nv >= 0 /\ Len(k.vdel) = k.nv /\ Len(k.edel) = ne /\ Len(k.fdel) = nf /\ Len(k.cdel) = nc
+  /\ \A i \in DOMAIN k.edges : Len(k.edges[i]) = 2 /\ InR(k.edges[i], 0, k.nv)
+  /\ \A i \in DOMAIN k.faces : InR(k.faces[i], 0, 2 * ne)
+  /\ \A i \in DOMAIN k.cells : InR(k.cells[i], 0, 2 * nf)
+  /\ Len(k.out) = (IF k.vbu THEN k.nv ELSE 0) /\ \A i \in DOMAIN k.out : InR(k.out[i], 0, 2 * ne)
+  /\ Len(k.hehf) = (IF k.ebu THEN 2 * ne ELSE 0) /\ \A i \in DOMAIN k.hehf : InR(k.hehf[i], 0, 2 * nf)
+  /\ Len(k.inc) = (IF k.fbu THEN 2 * nf ELSE 0) /\ InR(k.inc, -1, nc)
+WFObs(pj) ==
+  LET ns == Len(pj.S) IN
+  /\ Len(pj.M) = 3 /\ Len(pj.H) = 4
+  /\ \A m \in DOMAIN pj.M : pj.M[m].al =>
+        /\ Len(pj.M[m].n) = 7 /\ Len(pj.M[m].np) = 7 /\ Len(pj.M[m].npp) = 7
+        /\ Len(pj.M[m].fd) = NKeys /\ Len(pj.M[m].ex) = NKeys
+        /\ InR(pj.M[m].fd, 0, ns + 1) /\ InR(pj.M[m].trk, 1, ns + 1) /\ InR(pj.M[m].per, 1, ns + 1)
+        /\ pj.M[m].posh >= 0 /\ pj.M[m].posh <= ns
+        /\ pj.M[m].ty \in Rng(MTypeSeq)
+        /\ WFKern(pj.M[m].kern)
+  /\ \A h \in DOMAIN pj.H : pj.H[h].st >= 0 /\ pj.H[h].st <= ns
+  /\ \A i \in DOMAIN pj.S : pj.S[i].lv => pj.S[i].tr \in 0 .. 3
+
 (* what the storage says about itself agrees with the tracker that lists it *)
 AttachedIffTracked(pj) == \A i \in DOMAIN pj.S : pj.S[i].lv => (pj.S[i].att = (pj.S[i].tr # 0))
 
@@ -107,7 +133,8 @@ LineCheck(i) ==
       i13 == InvC13(q)
       r13 == RelC13(p, q, c, ret)
       msg ==
-        IF ~inC THEN ""
+        IF ~WFObs(ln.post) THEN "OBS:Malformed"
+        ELSE IF ~inC THEN ""
         ELSE IF ~AttachedIffTracked(ln.post) THEN "OBS:AttachedIffTracked"
         ELSE IF Want("C14") /\ i14 # "" THEN "C14:" \o i14
         ELSE IF Want("C14") /\ ~RelC14(p, q, c, ret) THEN "C14:Rel:" \o c.op
@@ -117,7 +144,7 @@ LineCheck(i) ==
         ELSE ""
       mq    == Apply(ToModel(p), c)
       (* the model is only run from worlds on which it is defined *)
-      drift == IF ~inC \/ msg # "" \/ InvC14(p) # "" \/ InvC13(p) # "" THEN 0
+      drift == IF msg # "" \/ ~inC \/ InvC14(p) # "" \/ InvC13(p) # "" THEN 0
                ELSE IF mq.err # "" \/ mq.ret # ret THEN 1
                ELSE IF View(Complete(mq)) # View(q) THEN 1 ELSE 0
   IN [msg |-> msg, drift |-> drift, skipped |-> ~inC]
@@ -138,7 +165,7 @@ TNext ==
           /\ nbad' = nbad + (IF r.msg = "" THEN 0
                              ELSE IF PrintT(<<"VXBAD", l, ln.x, ln.sid, r.msg>>) THEN 1 ELSE 1)
           /\ ndrift' = ndrift + (IF r.drift = 0 THEN 0
-                             ELSE IF ndrift < 5 /\ PrintT(<<"VXDRIFT", l, ln.x, ln.sid, ln.c.op>>) THEN 1 ELSE 1)
+                             ELSE IF PrintT(<<"VXDRIFT", l, ln.x, ln.sid, ln.c.op>>) THEN 1 ELSE 1)
           /\ nchk' = nchk + (IF r.skipped THEN 0 ELSE 1)
           /\ tainted' = IF r.msg = "" THEN tainted ELSE tainted \cup {l}
      ELSE UNCHANGED <<nbad, ndrift, nchk, tainted>>
